@@ -481,6 +481,12 @@ static void op_compare(handle *h, vf_rng *r)
 	}
 	probe(h, tmp, 0, 0, "empty");
 	probe(h, tmp, 0, 1, "empty");
+	if (nul) {
+		/* the C string in front of the first embedded NUL is a different name */
+		size_t k = (const uint8_t *) memchr(h->sh, 0, n) - h->sh;
+		probe(h, tmp, k, 0, "up to embedded NUL");
+		probe(h, tmp, k, 1, "up to embedded NUL");
+	}
 	/* comparison without a name: only watched by the sanitizers */
 	vf_at("mpt_identifier_compare"); vf_count("mpt_identifier_compare(NULL)", 1);
 	(void) mpt_identifier_compare(h->id, 0, h->id->_len ? h->id->_len - 1 : 0);
